@@ -104,7 +104,7 @@ Model(r) ==     \* [f |-> new forest, ok |-> the logged result is the one layer 
          [f |-> FRepl(f0, hv, <<>>), ok |-> r.res.class = "ok" /\ Len(r.res.seq) = Len(s)
                                            /\ {r.res.seq[i] : i \in 1..Len(s)} = {s[i].v : i \in 1..Len(s)}]
     [] r.ev = "NSetType" ->     \* changes the type of that container only
-         [f |-> [f0 EXCEPT ![RootOf(f0, hv)] = ReplTi(@, hv, "S" \o ToString(r.ti))], ok |-> r.res.class = "ok"]
+         [f |-> [f0 EXCEPT ![RootOf(f0, hv)] = ReplTi(@, hv, IF r.ti >= 100 THEN "Ccomposite(" \o ToString(r.ti) \o ")" ELSE "S" \o ToString(r.ti))], ok |-> r.res.class = "ok"]
     [] r.ev = "NIter" ->      \* C13: mutable iteration yields every element once (arrays: in index order)
          LET s == FSub(f0, hv) IN
          [f |-> f0, ok |-> r.res.class = "ok" /\ Len(r.res.seq) = Len(s)
@@ -153,6 +153,10 @@ OtherRootsUntouched ==
 RootsStandalone == l > 1 => \A i \in 1..Len(Cur.roots) : ~Cur.roots[i].F[1].inl /\ Cur.roots[i].F[1].root
 \* C09
 NoLeak == l > 1 => Cur.st.stored = Cur.st.reach
+\* C03 / C08 / C15: a slab served from the read cache and not pending in the write set is what the ledger holds under its
+\* identifier (its encoding equals the register): an in-place change of a cached slab that never reached the write set would be
+\* skipped by the next commit and differ from what any other storage decodes from the ledger
+CacheCoherent == l > 1 => Len(Cur.st.stale) = 0
 NoLedgerWrite == l > 1 => Cur.st.calls = lcalls
 
 \* C07: re-encoding the decoded register gives the identical bytes; header flags are truthful
